@@ -289,6 +289,8 @@ def corpus(run):
 
 
 def run_val(cx, derived=True):
+    import time
+    cx_t0 = time.time()
     run = Run(cx)
     rng = cx.sub_rng("val")
     corpus(run)
@@ -425,13 +427,16 @@ def run_val(cx, derived=True):
     if derived:
         derived_types(run)
     f51_witness(run)
-    from checks import valdt, valunion
-    valunion.run_all(run)
-    valdt.run_dt(run)
-    from checks import valhex
-    valhex.run_hex(run)
-    from checks import valbin; valbin.run_bin(run)
-    from checks import valinst; valinst.run_inst(run)
+    import time
+    from checks import valdt, valunion, valhex, valbin, valinst, valinet
+    t0 = time.time()
+    cx.dist["val:seconds:base-families"] = int(t0 - cx_t0)
+    for name, fn in (("union-pattern-identityref", valunion.run_all), ("date-and-time", valdt.run_dt), ("hex-string", valhex.run_hex), ("binary", valbin.run_bin),
+                     ("instance-identifier", valinst.run_inst), ("inet", valinet.run_inet)):
+        t1 = time.time()
+        fn(run)
+        cx.dist["val:seconds:" + name] = int(time.time() - t1)
+    cx.notes.append("val: wall seconds per family: " + ", ".join("%s %d" % (k.split(":", 2)[2], v) for k, v in sorted(cx.dist.items()) if k.startswith("val:seconds:")))
     return run
 
 
